@@ -98,3 +98,127 @@ def run(ctx):
     st = core.replay(ctx, ADAPTER, behs, params=WORLD[cfg], nontrivial=nontriv)
     ctx.notes["replay_" + cfg] = dict(exported=len(raws), behaviours=len(behs), **st)
   ctx.exhaustive = not quick
+
+
+# ----------------------------------------------------------------------------------------------------------
+# code -> spec: seeded random driver on the real router, timers fired in the real hub's order
+
+KEYS = ["p1", "p2", "p3", "a", "b", "c", "s1", "s2"]
+STATIC = [("p1", "a", 1), ("p2", "c", 3), ("p3", "b", 15)]
+LOCAL = [("p3", 1), ("p2", 5)]
+CONN = [("p1", "i1"), ("p3", "i2")]
+DUMMY = dict(tbl=[], trig=[], out={"i1": dict(adv=[], sizes=[]), "i2": dict(adv=[], sizes=[])}, sync=0, orph=0, wire="bad")
+ROW_TYPES = (str, str, int, str, str, bool, str, int)
+
+
+def wellformed(o):
+  """fixed schema, uniform types (TLC refuses to compare a string with an integer)"""
+  try:
+    if set(o) != set(DUMMY) or set(o["out"]) != {"i1", "i2"}:
+      return False
+    for row in o["tbl"]:
+      if len(row) != 8 or any(type(v) is not t for v, t in zip(row, ROW_TYPES)):
+        return False
+    if any(type(v) is not int for v in o["trig"]):
+      return False
+    for p in o["out"].values():
+      if set(p) != {"adv", "sizes"} or any(type(v) is not int for v in p["sizes"]):
+        return False
+      if any(len(e) != 2 or type(e[0]) is not str or type(e[1]) is not int for e in p["adv"]):
+        return False
+    return type(o["sync"]) is int and type(o["orph"]) is int and type(o["wire"]) is str
+  except Exception:
+    return False
+
+
+def due_timer_event(ad):
+  """the timer the real SelectHub would release first now, as a spec event (None: nothing is due)"""
+  from harness import x12_env as env
+  for t, due in env.timers():
+    if t._cancelled or due > env.clock.now:
+      continue
+    kind = env.cb_kind(t)
+    if kind == "trig":
+      return "Fire", dict(x=0)
+    for e in ad.r.table.values():
+      if e.t is t:
+        return ("Timeout" if kind == "to" else "Garbage"), dict(k=ad.names.key(e.ip, e.size))
+    return "Orphan", dict(x=0)
+  return None
+
+
+def next_due(ad):
+  from harness import x12_env as env
+  ds = [due - env.clock.now for t, due in env.timers() if not t._cancelled]
+  return min(ds) if ds else None
+
+
+def drive(arg):
+  """Random operation sequence on the real router; returns the recorded trace."""
+  seed, n = arg
+  from harness.adapters_x12 import Adapter
+  rnd = random.Random(seed)
+  ad = Adapter(T=25, G=70, R=2, mtu=124)
+  tr = []
+  metrics = [0, 1, 1, 1, 2, 2, 3, 7, 14, 15, 16, 16, 17]
+  calm = rnd.random() < 0.5            # calm runs let routes live and die; busy ones keep rewriting the table
+  while len(tr) < n:
+    ev = due_timer_event(ad)
+    if ev is not None and rnd.random() < 0.85:
+      a, args = ev
+    else:
+      k = rnd.random()
+      if k < (0.25 if calm else 0.45):
+        nb = rnd.choice("abc")
+        ents = []
+        for _ in range(rnd.choice([0, 1, 1, 1, 2, 2, 3])):
+          ents.append(dict(k=rnd.choice(KEYS[:3] if rnd.random() < 0.8 else KEYS), m=rnd.choice(metrics),
+                           tag=0 if rnd.random() < 0.93 else 5, af="inet" if rnd.random() < 0.93 else "other"))
+        a, args = "Response", dict(n=nb, i=ad.ifof[nb] if rnd.random() < 0.93 else "none", ents=ents)
+      elif k < 0.75:
+        if ev is not None:
+          continue                     # time cannot pass over a timer that is due
+        d = rnd.choice([1, 1, 2, 3, 5, 8, 12, 13, 20, 25, 45, 70])
+        nd = next_due(ad)
+        if nd is not None:
+          d = min(d, int(nd))
+        if d < 1:
+          continue
+        a, args = "Advance", dict(d=d)
+      elif k < 0.81:
+        a, args = "Periodic", dict(x=0)
+      elif k < 0.84:
+        a, args = "Request", dict(n=rnd.choice("abc"))
+      elif k < 0.92:
+        a, args = "Query", dict(i=rnd.choice(["i1", "i2"]), force=rnd.random() < 0.7, so=rnd.random() < 0.3,
+                                mtu=rnd.choice([64, 84, 104, 124, 564, 1400]))
+      elif calm and rnd.random() < 0.7:
+        continue
+      else:
+        c = rnd.randrange(4)
+        if c == 0:
+          s = rnd.choice(STATIC)
+          a, args = "AddStatic", dict(k=s[0], nh=s[1], m=s[2])
+        elif c == 1:
+          s = rnd.choice(LOCAL)
+          a, args = "AddLocal", dict(k=s[0], m=s[1])
+        elif c == 2:
+          s = rnd.choice(CONN)
+          a, args = "AddConnected", dict(k=s[0], i=s[1])
+        else:
+          a, args = "AddIface", dict(s=rnd.choice(["s1", "s2"]))
+    if a == "Orphan":
+      obs, wf = copy.deepcopy(DUMMY), False
+    else:
+      try:
+        obs = ad.step(a, args)
+        wf = wellformed(obs)
+      except Exception as e:
+        obs, wf = {"exc": type(e).__name__}, False
+      if not wf:
+        obs = copy.deepcopy(DUMMY)
+    tr.append(dict(a=a, args=args, obs=obs, wf=wf))
+    if not wf:
+      break
+  ad.close()
+  return tr
